@@ -1142,6 +1142,14 @@ class GrammarBuilder:
         if name.startswith('__'):
             self._grammar_error(is_term, 'Names starting with double-underscore are reserved (Error at {name})', name)
 
+        if override and is_term and exp is not None:
+            old = self._definitions[name]
+            if old.is_term and old.tree is not None:
+                # Terminals imported together with this one were already resolved and hold a reference to its tree.
+                # Like %extend, change it in place, so that they use the overriding definition too.
+                old.tree.set(exp.data, exp.children)
+                exp = old.tree
+
         self._definitions[name] = Definition(is_term, exp, params, self._check_options(is_term, options))
 
     def _extend(self, name, is_term, exp, params=(), options=None):
